@@ -718,6 +718,57 @@ func argShape(info *types.Info, fd *ast.FuncDecl, call *ast.CallExpr) string {
 		}
 		return true
 	})
+	// a local that only ever holds parameters (first, second := a, b; first, second = b, a) is one of them
+	for changed := true; changed; {
+		changed = false
+		cands := map[types.Object]bool{}
+		bad := map[types.Object]bool{}
+		ast.Inspect(fd, func(n ast.Node) bool {
+			switch x := n.(type) {
+			case *ast.AssignStmt:
+				for i, l := range x.Lhs {
+					id, ok := ast.Unparen(l).(*ast.Ident)
+					if !ok {
+						continue
+					}
+					o := info.ObjectOf(id)
+					if o == nil || params[o] {
+						continue
+					}
+					if len(x.Lhs) != len(x.Rhs) || (x.Tok != token.ASSIGN && x.Tok != token.DEFINE) {
+						bad[o] = true
+						continue
+					}
+					if rid, ok := ast.Unparen(x.Rhs[i]).(*ast.Ident); ok && params[info.ObjectOf(rid)] {
+						cands[o] = true
+					} else {
+						bad[o] = true
+					}
+				}
+			case *ast.IncDecStmt:
+				if id, ok := ast.Unparen(x.X).(*ast.Ident); ok {
+					bad[info.ObjectOf(id)] = true
+				}
+			case *ast.RangeStmt:
+				for _, e := range []ast.Expr{x.Key, x.Value} {
+					if id, ok := e.(*ast.Ident); ok {
+						bad[info.ObjectOf(id)] = true
+					}
+				}
+			case *ast.UnaryExpr:
+				if id, ok := ast.Unparen(x.X).(*ast.Ident); ok && x.Op == token.AND {
+					bad[info.ObjectOf(id)] = true
+				}
+			}
+			return true
+		})
+		for o := range cands {
+			if !bad[o] && !params[o] {
+				params[o] = true
+				changed = true
+			}
+		}
+	}
 	var ss []string
 	for _, a := range call.Args {
 		a = ast.Unparen(a)
